@@ -259,8 +259,11 @@ func (sw *SlidingWindow) Add(data any) {
 			// triggered yet; the row triggers normally, keep it.
 		case sw.config.AllowedLateness > 0:
 			placed := false
+			wmNow := sw.watermark.GetCurrentWatermark()
 			for _, info := range sw.triggeredWindows {
-				if info.slot.Contains(eventTime) {
+				// skip windows whose allowance has expired by the current watermark
+				// but which the trigger goroutine has not reaped yet
+				if info.slot.Contains(eventTime) && wmNow.Before(info.closeTime) {
 					sw.handleLateData(eventTime, sw.config.AllowedLateness)
 					placed = true
 					break
@@ -864,8 +867,9 @@ func (sw *SlidingWindow) getWindowKey(endTime time.Time) string {
 // handleLateData handles late data that arrives within allowedLateness
 func (sw *SlidingWindow) handleLateData(eventTime time.Time, allowedLateness time.Duration) {
 	// Find which triggered window this late data belongs to
+	wmNow := sw.watermark.GetCurrentWatermark()
 	for _, info := range sw.triggeredWindows {
-		if info.slot.Contains(eventTime) {
+		if info.slot.Contains(eventTime) && wmNow.Before(info.closeTime) {
 			// This late data belongs to a triggered window that's still open
 			// Trigger window again with updated data (late update)
 			sw.triggerLateUpdateLocked(info.slot)
